@@ -46,7 +46,7 @@ CLAIMED = {
              "(C16_split); in any received trace - blocks of other system bytes interleaved anywhere - the blocks of one message yield its body under its last "
              "block's header, exactly once (C16_reassembly_interleaved, locality + induction over the trace), also when blocks of an attempt that was never completed are still "
              "kept for the same system bytes (C16_reassembly_after_abandoned_attempt); a block with any single byte altered is never "
-             "accepted (C16_corruption_detected: arithmetic on the checksum, no wrap below 65536). Framing constants are regenerated from the source. SecsIHeader.encode / decode are translated statement by statement from the source on every run (Gen/PySecsIHdr.v) and proved equal to the model's header functions (C16_header_code_is_model). Protocol._add_message_block is read statement by statement on every run (Gen/Reasm.v): the model's key separates in-range headers exactly when the code's regenerated key tuple does, the start rule is the regenerated one (C16_reassembly_as_translated).",
+             "accepted (C16_corruption_detected: arithmetic on the checksum, no wrap below 65536). Framing constants are regenerated from the source. SecsIHeader.encode / decode are translated statement by statement from the source on every run (Gen/PySecsIHdr.v) and proved equal to the model's header functions (C16_header_code_is_model). Protocol._add_message_block is read statement by statement on every run (Gen/Reasm.v): the model's key separates in-range headers exactly when the code's regenerated key tuple does, the start rule is the regenerated one (C16_reassembly_as_translated). Block.checksum is translated statement by statement and proved to be the model's sum (C16_checksum_code_is_model).",
         note=NOTE_COMMON + " The reassembled message reports the last block's header (block number n); messages above 32767 blocks are outside the statement.",
         technique="Rocq proof (bit-level header lemmas, trace induction with a per-system-id locality lemma, checksum arithmetic) + regenerated constants + in-Coq differential correspondence",
         design="5/C16",
